@@ -480,14 +480,43 @@ def rule_presentation_inputs(prog, fixture=False):
     return r
 
 
+# ---------------------------------------------------------------- R-C18-6
+def rule_environment_cannot_fail(prog, fixture=False):
+    from ..exc import MayThrow
+    r = RuleResult("R-C18-6", "a function that consults the environment or the terminal (COLUMNS, isatty) lets no "
+                   "exception escape: what it finds there may change the layout, never whether the command succeeds",
+                   floor=0 if fixture else 1)
+    mt = None
+    for fn in prog.functions.values():
+        reads = [n for n in fn.walk() if n.get("k") == "CallExpr" and notpl(n.get("q") or "") in PRESENTATION_FUNCS]
+        if not reads:
+            continue
+        mt = mt or MayThrow(prog)
+        esc = set()
+        origin = None
+        for site in mt._sites[fn.uid]:
+            node = site[0]
+            left = mt._filter(fn, node, mt.site_throws(fn, site))
+            if left and origin is None:
+                origin = (node, sorted(left))
+            esc |= left
+        key = "%s::%s::escapes" % (fn.relfile(), fn.qn)
+        r.add(key, fn.loc(origin[0]) if origin and origin[0] is not None else fn.loc(reads[0]), not esc,
+              "no exception leaves the function" if not esc else
+              "%s may leave %s (raised at `%s`): a value found in the environment makes the command fail instead of "
+              "only changing the layout" % (", ".join(sorted(esc)), fn.qn, show(origin[0])[:40] if origin[0] is not None else "?"))
+    return r
+
+
 def run(ctx):
     prog = ctx.prog("dfs", "N")
     return [rule_layering(prog), rule_verbose_regions(prog), rule_option_handlers(prog),
-            rule_presentation_inputs(prog)]
+            rule_presentation_inputs(prog), rule_environment_cannot_fail(prog)]
 
 
 SELFTESTS = [
     (rule_verbose_regions, ["c18_bad.cc"], ["c18_good.cc"], "verbose-region"),
     (rule_layering, ["c18_bad.cc"], ["c18_good.cc"], "lib_identify"),
     (rule_presentation_inputs, ["c18_bad.cc"], ["c18_good.cc"], "getenv"),
+    (rule_environment_cannot_fail, ["c18_bad.cc"], ["c18_good.cc"], "cat_columns_throwing"),
 ]
